@@ -117,14 +117,18 @@ def child_setup(shard):
             out.append(("name", repr(res.name)))
         # every selected pixel keeps value and coordinates
         xs, ys = np.asarray(res.x.values), np.asarray(res.y.values)
+        zs = np.asarray(res.z.values) if "z" in data.dims and "z" in res.coords and np.ndim(res.z.values) == 1 else None
         pos = set()
-        base = data.isel(z=0) if "z" in data.dims else data
         for j in range(pixels):
-            v = base.sel(x=xs[j], y=ys[j])
+            if "z" in data.dims:
+                # (a plain image has one z plane; a stack has several and the pixel's own height says which)
+                v = data.sel(x=xs[j], y=ys[j], z=zs[j]) if zs is not None and data.sizes["z"] > 1 else data.isel(z=0).sel(x=xs[j], y=ys[j])
+            else:
+                v = data.sel(x=xs[j], y=ys[j])
             if not np.array_equal(np.asarray(v.values), np.asarray(res.isel(flat=j).values)):
                 out.append(("value", "pixel %d" % j))
                 break
-            pos.add((float(xs[j]), float(ys[j])))
+            pos.add((float(xs[j]), float(ys[j]), float(zs[j]) if zs is not None else 0.0))
         if len(pos) != pixels:
             out.append(("not_distinct", "%d distinct of %d" % (len(pos), pixels)))
         if sel is not None:
@@ -262,6 +266,22 @@ def _run_subset(case):
         flags["global_stream_reproducible@%d" % npx] = bool(np.array_equal(a, b))
     flags["pixels_none_returns_data"] = bool(make_subset_data(im) is im)
     flags["input_untouched"] = bool(digest(im) == d0 and "original_dims" not in im.attrs)
+    # an image with several z planes (a stack of slices): a subset is drawn from ALL its pixels, and all of them can be asked for (F129)
+    if not nch:
+        nz = 2 + int(case["seed"][-1]) % 3
+        vol = data_grid(rng.normal(size=(nz, nx, ny)), spacing=0.1, z=[0.5 * j for j in range(nz)], medium_index=1.33, illum_wavelen=0.66, illum_polarization=(1, 0))
+        totv = nx * ny * nz
+        try:
+            allv, selv = make_subset_data(vol, pixels=totv, return_selection=True, seed=5)
+            flags["stack_all_pixels_is_permutation"] = bool(sorted(int(v) for v in selv) == list(range(totv)) and
+                                                            np.array_equal(np.sort(allv.values), np.sort(vol.values.ravel())))
+        except Exception:
+            flags["stack_all_pixels_is_permutation"] = False
+        seen = set()
+        for sd in range(40):
+            _, selp = make_subset_data(vol, pixels=max(1, totv // 3), return_selection=True, seed=sd)
+            seen |= set(int(v) for v in selp)
+        flags["stack_subsets_reach_every_plane"] = bool(max(seen) >= nx * ny) if totv > nx * ny else True
     return {"resid": {}, "flags": flags, "hptp": 1.0, "npix": tot}
 
 
